@@ -40,11 +40,14 @@ type Query {
   search(opts: Opts): String
   account: Account
   member: Node
+  accountVal: Account
+  accountBot: Account
 }
 
 type Account {
   id: ID
   name: String
+  greeting(prefix: String): String
 }
 
 type Member implements Node @go(type: "zoo.Person") {
@@ -223,6 +226,24 @@ type Person struct {
 	Name  string
 	Since int
 }
+
+// Greeting is a method with a pointer receiver: bound to Account.greeting and Member... (only Account declares it).
+func (p *Person) Greeting(prefix string) string { called("Person.Greeting"); return prefix + " " + p.Name }
+
+// Robot is ANOTHER Go type served under the object type Account (same field names, its own Greeting method).
+type Robot struct {
+	ID   string
+	Name string
+}
+
+// Greeting of a robot.
+func (b *Robot) Greeting(prefix string) string { return prefix + " unit " + b.Name }
+
+// AccountVal returns a Person VALUE (not a pointer) as an Account.
+func (q *Query) AccountVal() Person { return Person{ID: "p3", Name: "val"} }
+
+// AccountBot returns a *Robot as an Account.
+func (q *Query) AccountBot() *Robot { return &Robot{ID: "r1", Name: "rob"} }
 
 // Account returns a Person as an Account.
 func (q *Query) Account() *Person { return &Person{ID: "p1", Name: "pat", Since: 2001} }
